@@ -1131,13 +1131,15 @@ class Interp:
                 kwargs[k.arg] = v
         return self.call_value(f, args, kwargs)
 
-    def _comp(self, e, fr, emit):
+    def _comp(self, e, fr, emit, pre=None):
+        pre = list(pre) if pre else []
+
         def rec(gi, env_fr):
             if gi == len(e.generators):
                 emit(env_fr)
                 return
             g = e.generators[gi]
-            it = self.ev(g.iter, env_fr)
+            it = pre.pop(0) if (gi == 0 and pre) else self.ev(g.iter, env_fr)
             for item in self.iterate(it):
                 fr2 = Frame(env_fr.module, dict(env_fr.env), env_fr.defcls, env_fr.self_obj)
                 self.assign(g.target, item, fr2)
@@ -1259,7 +1261,8 @@ class GenIter:
             return []
         self.consumed = True
         out = []
-        self.interp._comp(self.node, self.fr, lambda f2: out.append(self.interp.ev(self.node.elt, f2)))
+        pre = [self._pre] if hasattr(self, "_pre") else None  # the iterable was already evaluated once (all / any)
+        self.interp._comp(self.node, self.fr, lambda f2: out.append(self.interp.ev(self.node.elt, f2)), pre)
         return out
 
 
@@ -1293,7 +1296,7 @@ def _pure(node):
         return (
             _pure(node.left)
             and all(_pure(c) for c in node.comparators)
-            and all(isinstance(o, (ast.Eq, ast.NotEq, ast.Is, ast.IsNot)) for o in node.ops)
+            and all(isinstance(o, (ast.Eq, ast.NotEq, ast.Is, ast.IsNot, ast.In, ast.NotIn)) for o in node.ops)
         )
     return False
 
@@ -1491,11 +1494,38 @@ def _b_list(it, x=()):
     return list(it.iterate(x))
 
 
+def _quantify_over_candidates(it, x):
+    """all(f(e) for e in S) / any(...) over a finite-candidate set S: repetitions among the candidates cannot matter, so
+    the candidates are taken one by one (guarded by their membership) instead of forking on which of them coincide"""
+    if not isinstance(x, GenIter) or x.consumed or len(x.node.generators) != 1 or x.node.generators[0].ifs:
+        return None
+    g = x.node.generators[0]
+    src = it.ev(g.iter, x.fr)
+    if hasattr(src, "sym_candidates"):
+        src = src.sym_candidates(it)  # the atoms of a descriptor whose class is still open: positions guarded by the class length
+    if not isinstance(src, FSet):
+        x._pre = src
+        return None
+    x.consumed = True
+    out = []
+    for e_, g_ in zip(src.elems, src.guards):
+        fr2 = Frame(x.fr.module, dict(x.fr.env), x.fr.defcls, x.fr.self_obj)
+        it.assign(g.target, e_, fr2)
+        out.append((g_, truthy(it.ev(x.node.elt, fr2))))
+    return out
+
+
 def _b_any(it, x):
+    c = _quantify_over_candidates(it, x)
+    if c is not None:
+        return Or_(*[And_(g, v) for g, v in c])
     return Or_(*[truthy(v) for v in it.iterate(x)])
 
 
 def _b_all(it, x):
+    c = _quantify_over_candidates(it, x)
+    if c is not None:
+        return And_(*[Or_(Not_(g), v) for g, v in c])
     return And_(*[truthy(v) for v in it.iterate(x)])
 
 
